@@ -30,10 +30,15 @@ package main
 //                check), and hundreds of thousands of short rounds on real goroutines and script threads.
 //   G. spawned builtins  builtins and bound methods with callbacks (map/each/filter/sorted/call/try),
 //                all three spawn forms, the spawner running script code meanwhile; in a child process (c10vms.go).
+//   H. loops     range loops that are LEFT EARLY (break / return / raised error) and what later receivers find:
+//                loop schedules on a real object.Chan driven through Chan.Iter(), segmented consumers in scripts (c10loops.go).
+//   I. modules   what a thread's VM knows of the modules: threads come and go, the spawner imports in between,
+//                later threads call into / import what their spawner knew; step by step on one real VM (c10mods.go).
 
 import (
 	"context"
 	"fmt"
+	"os"
 	"runtime"
 	"sort"
 	"strconv"
@@ -72,16 +77,30 @@ func c10_runC10(e *Env) {
 		"F2/F3: produce-then-close rounds = (buffer 1..8, 1..n values then close at once, consumers recv | iter | recv+recv | iter+recv) run thousands of times each on real goroutines at the object.Chan API (GOMAXPROCS 2/4/16, cancellable context) and by script worker threads " +
 		"(producer started with go | spawn() | fn.spawn(), consumer <-c | c.receive() | range | for-in | range plus a second consumer thread); ONE case per (level, shape, GOMAXPROCS) however many rounds it was run (round counts are in the notes); every such case is non-trivial. " +
 		"G: spawned-builtin scenarios = 1..3 callables out of list.map (1 and 2 parameters) | list.each | list.filter | sorted(items, cmp) | call(f, n) | try(f, handler), each started with spawn(b,…) | b.spawn(…) | go b(…), their callbacks feeding one channel (cap 0..4) that the spawner " +
-		"(main program or a spawned coordinator) consumes with <-out | out.receive() while keeping sums of its own, optionally a second consumer thread, then wait(); run in a child process; non-trivial when the spawner receives >= 5 values; distinct by (cap, GOMAXPROCS, spawner, receive form, consumer quota, salt, callables)"
+		"(main program or a spawned coordinator) consumes with <-out | out.receive() while keeping sums of its own, optionally a second consumer thread, then wait(); run in a child process; non-trivial when the spawner receives >= 5 values; distinct by (cap, GOMAXPROCS, spawner, receive form, consumer quota, salt, callables). " +
+		"H1: loop schedules (8..44 steps, 2..4 threads, cap 0..8) on one real object.Chan = the steps of A plus en:t (a range loop starts: Chan.Iter(), the returned object is what Next/Entry are called on) and lv:t (the loop ends by break/return/error/end: the iterator is dropped), one iterating thread (12%: several), the queue kept full in 60% of the schedules so that loops are left while values are ready, every loop left at the end and the queue drained value by value; " +
+		"non-trivial when a loop is left while a value is queued and a value is handed out afterwards; distinct by (cap, op list). " +
+		"H2: segmented-consumer runs = (1..3 producers started with go | spawn() | fn.spawn(), buffer 0..8, 60..3000 values, ONE consumer at a time working in segments — range+break | for-in+break | range+return | range+raised error | range with index+break | q explicit receives | q c.receive() calls, quotas 1..40 — cycling until the channel ends, " +
+		"0..2 explicit consumers beside it or a hand-over chain of 1..3 one-segment consumers each waited for before the next starts, GOMAXPROCS 1/2/4/16, yields), logs judged by validHistory; non-trivial when >= 50 values pass and >= 1 range loop was left early; distinct by that tuple. " +
+		"I: schedules (8..32 steps, up to 8 threads, 4 modules) of the model's thread/VM/module machine — spawn by any live thread (spawn()/fn.spawn()/go), return, import by the main program (top-level statement or function-level, new or known module), import inside a thread of a module its VM knows, call of a module function by any thread " +
+		"(into a module the thread's VM does not know: 12% of such draws, threads with a handle only), wait — executed step by step on one real VM with an FS importer, the main program generated as straight-line code, every other thread in a command loop; module bodies report each run; " +
+		"non-trivial when a spawned thread calls into a module that the main program imported after some earlier thread had finished; distinct by (spawn forms, import forms, op list)"
 	prev := runtime.GOMAXPROCS(0)
 	defer runtime.GOMAXPROCS(prev)
-	c10ChanOps(e)
-	c10CloseRaces(e)
-	c10SpawnBuiltins(e)
-	c10Spawn(e)
-	c10Tree(e)
-	c10Nested(e)
-	c10Topologies(e)
+	parts := []struct {
+		name string
+		run  func(*Env)
+	}{{"chanops", c10ChanOps}, {"closeraces", c10CloseRaces}, {"builtins", c10SpawnBuiltins}, {"spawn", c10Spawn}, {"tree", c10Tree},
+		{"nested", c10Nested}, {"topologies", c10Topologies}, {"loops", c10Loops}, {"mods", c10Mods}} // (new parts last: the earlier parts keep their random streams)
+	only := os.Getenv("VERIF_C10_ONLY") // development aid: run some parts only (comma separated)
+	for _, p := range parts {
+		if only != "" && !strings.Contains(","+only+",", ","+p.name+",") {
+			continue
+		}
+		t0 := time.Now()
+		p.run(e)
+		e.R.Note("part %s: %.1fs", p.name, time.Since(t0).Seconds())
+	}
 }
 
 // ---------------------------------------------------------------------------------------
